@@ -87,6 +87,38 @@ type world struct {
 	hub   *c08fakes.Hub
 	peers []peer.ID
 	comm  map[peer.ID]*c08fakes.Comm
+	// overlap.go: the relayer whose store really locks during the next refresh, and the signing
+	// members constructed meanwhile (by session id, then peer)
+	ov    *overlap
+	early map[string]map[peer.ID]*earlyMember
+}
+
+type ecdsaStorer interface {
+	StoreKeyshare(keyshare.ECDSAKeyshare) error
+	GetKeyshare() (keyshare.ECDSAKeyshare, error)
+	LockKeyshare()
+	UnlockKeyshare()
+}
+type frostStorer interface {
+	StoreKeyshare(keyshare.FrostKeyshare) error
+	GetKeyshare() (keyshare.FrostKeyshare, error)
+	LockKeyshare()
+	UnlockKeyshare()
+}
+
+// estore / fstore: the relayer's key-share store - the repository's file store; Lock / Unlock are
+// no-ops except on the relayer picked for an overlapping refresh (overlap.go).
+func (w *world) estore(p peer.ID) ecdsaStorer {
+	if w.ov != nil && w.ov.peer == p {
+		return &c08fakes.LockedECDSAStore{ECDSAKeyshareStore: keyshare.NewECDSAKeyshareStore(w.ecdsaPath(p)), L: w.ov.lock}
+	}
+	return c08fakes.NewECDSAStore(w.ecdsaPath(p))
+}
+func (w *world) fstore(p peer.ID) frostStorer {
+	if w.ov != nil && w.ov.peer == p {
+		return &c08fakes.LockedFrostStore{FrostKeyshareStore: keyshare.NewFrostKeyshareStore(w.frostPath(p)), L: w.ov.lock}
+	}
+	return c08fakes.NewFrostStore(w.frostPath(p))
 }
 
 func newWorld(seed uint64, peers []peer.ID) *world {
@@ -239,33 +271,60 @@ func (w *world) ecdsaKeygen(sid string, members []peer.ID, threshold int) runRes
 // sharing the relayer's result channel), its own host (peerstore = the committee) and a
 // fault-injecting view of its communication endpoint.
 func (w *world) signMembers(proto, sid string, holders, peers []peer.ID, digests [][]byte, tweakHex string) ([]*member, []string, error) {
-	sids := make([]string, len(digests))
-	for k := range digests {
+	sids := inputSids(sid, len(digests))
+	members := make([]*member, len(peers))
+	for i, p := range peers {
+		if em := w.early[sid][p]; em != nil {
+			// this relayer's processes were constructed while the refresh ran (overlap.go)
+			select {
+			case <-em.done:
+			case <-time.After(60 * time.Second):
+				return nil, nil, fmt.Errorf("a signing constructor started during the refresh has not returned a minute after the refresh ended")
+			}
+			if em.err != nil {
+				return nil, nil, em.err
+			}
+			members[i] = em.m
+			continue
+		}
+		m, err := w.signMember(proto, sids, holders, p, digests, tweakHex, w.estore(p), w.fstore(p))
+		if err != nil {
+			return nil, nil, err
+		}
+		members[i] = m
+	}
+	return members, sids, nil
+}
+
+// signMember: one relayer of a signing session with one real signing process per digest.
+func (w *world) signMember(proto string, sids []string, holders []peer.ID, p peer.ID, digests [][]byte, tweakHex string, es ecdsaStorer, fs frostStorer) (*member, error) {
+	m := &member{peer: p, fc: &faultComm{Comm: w.comm[p], armed: map[string]bool{}}}
+	h := c08fakes.NewHost(p, holders)
+	for k, dg := range digests {
+		var proc tss.TssProcess
+		var err error
+		if proto == "ecdsa" {
+			proc, err = esigning.NewSigning(new(big.Int).SetBytes(dg), sids[k], sids[k], h, m.fc, es)
+		} else {
+			proc, err = fsigning.NewSigning(k, dg, tweakHex, sids[k], sids[k], h, m.fc, fs)
+		}
+		if err != nil {
+			return nil, err
+		}
+		m.procs = append(m.procs, proc)
+	}
+	return m, nil
+}
+
+func inputSids(sid string, n int) []string {
+	sids := make([]string, n)
+	for k := range sids {
 		sids[k] = sid
 		if k > 0 {
 			sids[k] = fmt.Sprintf("%s-in%d", sid, k)
 		}
 	}
-	members := make([]*member, len(peers))
-	for i, p := range peers {
-		m := &member{peer: p, fc: &faultComm{Comm: w.comm[p], armed: map[string]bool{}}}
-		h := c08fakes.NewHost(p, holders)
-		for k, dg := range digests {
-			var proc tss.TssProcess
-			var err error
-			if proto == "ecdsa" {
-				proc, err = esigning.NewSigning(new(big.Int).SetBytes(dg), sids[k], sids[k], h, m.fc, c08fakes.NewECDSAStore(w.ecdsaPath(p)))
-			} else {
-				proc, err = fsigning.NewSigning(k, dg, tweakHex, sids[k], sids[k], h, m.fc, c08fakes.NewFrostStore(w.frostPath(p)))
-			}
-			if err != nil {
-				return nil, nil, err
-			}
-			m.procs = append(m.procs, proc)
-		}
-		members[i] = m
-	}
-	return members, sids, nil
+	return sids
 }
 
 // ecdsaReshare: newMembers = the new committee (every host's peerstore); holders among them take
@@ -278,11 +337,12 @@ func (w *world) ecdsaReshare(sid string, newMembers []peer.ID, newThreshold int)
 		if _, err := w.ecdsaKey(p); err == nil && coord < 0 {
 			coord = i
 		}
-		procs[i] = eresharing.NewResharing(sid, newThreshold, h, w.comm[p], c08fakes.NewECDSAStore(w.ecdsaPath(p)))
+		procs[i] = eresharing.NewResharing(sid, newThreshold, h, w.comm[p], w.estore(p))
 	}
 	if coord < 0 {
 		return runResult{}, fmt.Errorf("no key holder in the new committee")
 	}
+	w.whileRefreshHoldsLock()
 	return runProcs(procs, coord, newMembers, 180*time.Second), nil
 }
 
@@ -305,11 +365,12 @@ func (w *world) frostReshare(sid string, newMembers []peer.ID, newThreshold int)
 		if _, err := w.frostKey(p); err == nil && coord < 0 {
 			coord = i
 		}
-		procs[i] = fresharing.NewResharing(sid, newThreshold, h, w.comm[p], c08fakes.NewFrostStore(w.frostPath(p)))
+		procs[i] = fresharing.NewResharing(sid, newThreshold, h, w.comm[p], w.fstore(p))
 	}
 	if coord < 0 {
 		return runResult{}, fmt.Errorf("no key holder in the new committee")
 	}
+	w.whileRefreshHoldsLock()
 	return runProcs(procs, coord, newMembers, 120*time.Second), nil
 }
 
